@@ -1,0 +1,23 @@
+//! Verification hooks (compiled only with `--cfg fuse_backend_rs_verif`).
+//!
+//! * `yield_point(label)`: called at the steps between lock acquisitions and atomic operations of
+//!   `do_lookup` / `forget`; a no-op unless a scheduler callback has been installed with `set_hook`.
+//! * read-only accessors on `PassthroughFs` for table sizes and reference counts.
+use std::sync::RwLock;
+
+/// Scheduler callback type: receives the label of the yield point reached by the calling thread.
+pub type Hook = Box<dyn Fn(&'static str) + Send + Sync>;
+
+static HOOK: RwLock<Option<Hook>> = RwLock::new(None);
+
+/// Install (or remove with `None`) the scheduler callback.
+pub fn set_hook(h: Option<Hook>) {
+    *HOOK.write().unwrap() = h;
+}
+
+/// Yield point; does nothing unless a hook is installed.
+pub fn yield_point(label: &'static str) {
+    if let Some(h) = HOOK.read().unwrap().as_ref() {
+        h(label)
+    }
+}
